@@ -1,7 +1,7 @@
 #!/bin/bash
 # usage: lib/seedtry.sh <patch.diff> ID [ID...]  - applies a patch to a scratch copy of /repo (no suite run) and runs the quick checks with REPO=<scratch>
 set -u
-T=$(mktemp -d /tmp/seedtry-XXXXXX); rsync -a --exclude .git /repo/ $T/r/
+T=$(mktemp -d /tmp/seedtry-XXXXXX); mkdir -p $T/r && git -C /repo archive HEAD | tar -x -C $T/r      # the committed tree: /repo's working tree may hold a seed patch of a concurrent reseed run
 (cd $T/r && patch -p1 -s < "$1") || { echo "patch failed"; rm -rf $T; exit 2; }
 shift
 for id in "$@"; do REPO=$T/r $(dirname $0)/../run $id ${TIER:-quick} 2>&1 | grep -E "^VIOLATION|^KNOWN|HARNESS|quick:|thorough:" | cut -c1-300 | head -6; echo "  -> $id exit=${PIPESTATUS[0]}"; done
